@@ -125,6 +125,25 @@ Theorem C18_builtin_direct_block :
 Proof. exact builtin_direct_block. Qed.
 Print Assumptions C18_builtin_direct_block.
 
+(* routeDial: every attempt of one call (the first dial and the retry after a local network failure)
+   hands chooseProxyDialer the same sniffed name, hence the node gets the target of the decision table on
+   EVERY dial of the flow.  (route_dial_retry_keeps_domain is read off the source of routeDial.) *)
+Theorem C18_every_attempt_same_target :
+  forall (is_ip : str -> bool) mode outbound dst domain l first_fails d,
+    In d (route_dial_domains domain first_fails) ->
+    d = domain /\ choose_dial_target is_ip mode outbound dst d l = choose_dial_target is_ip mode outbound dst domain l.
+Proof. exact every_attempt_same_target. Qed.
+Print Assumptions C18_every_attempt_same_target.
+
+(* a retry on parameters without Domain does not have that property: domain+, "example.com" *)
+Theorem C18_attempt_without_domain_refuted :
+  exists mode outbound dst domain l d,
+    In d (route_dial_domains_dropping domain true) /\
+    o_target (choose_dial_target nv_is_ip mode outbound dst d l) <>
+    o_target (choose_dial_target nv_is_ip mode outbound dst domain l).
+Proof. exact attempt_without_domain_refuted. Qed.
+Print Assumptions C18_attempt_without_domain_refuted.
+
 (* NormalizeDomain (applied by the sniffers before the control plane sees the value) on the classes the
    statement names: "[literal]" becomes the literal and is then treated as an IP literal; a value that
    carries a port becomes its bare host, which has no bracket. *)
